@@ -155,7 +155,7 @@ class Env(object):
         """(dictionary name, key expression) when x is D[k] or D.get(k, ...)"""
         if isinstance(x, ast.Subscript) and isinstance(x.value, ast.Name) and x.value.id in YAML_DICTS:
             return x.value.id, x.slice
-        if isinstance(x, ast.Call) and isinstance(x.func, ast.Attribute) and x.func.attr == "get" and \
+        if isinstance(x, ast.Call) and isinstance(x.func, ast.Attribute) and x.func.attr in ("get", "setdefault") and \
                 isinstance(x.func.value, ast.Name) and x.func.value.id in YAML_DICTS and x.args:
             return x.func.value.id, x.args[0]
         return None
